@@ -10,7 +10,7 @@ from pathlib import Path
 
 pid, x = sys.argv[1], sys.argv[2]
 checks = [a for a in sys.argv[3:] if not a.startswith("--")] or [pid]
-r2 = "2" if "--round2" in sys.argv else "3" if "--round3" in sys.argv else "4" if "--round4" in sys.argv else "5" if "--round5" in sys.argv else "6" if "--round6" in sys.argv else "7" if "--round7" in sys.argv else "8" if "--round8" in sys.argv else "9" if "--round9" in sys.argv else "10" if "--round10" in sys.argv else "11" if "--round11" in sys.argv else "12" if "--round12" in sys.argv else ""
+r2 = "2" if "--round2" in sys.argv else "3" if "--round3" in sys.argv else "4" if "--round4" in sys.argv else "5" if "--round5" in sys.argv else "6" if "--round6" in sys.argv else "7" if "--round7" in sys.argv else "8" if "--round8" in sys.argv else "9" if "--round9" in sys.argv else "10" if "--round10" in sys.argv else "11" if "--round11" in sys.argv else "12" if "--round12" in sys.argv else "13" if "--round13" in sys.argv else ""
 wt = Path("/tmp/wt%s_%s" % (r2, pid))
 sd = Path("/tmp/seed%s_%s/%s" % (r2, pid, x))
 env = dict(os.environ, GOFLAGS="-mod=mod", GOPROXY="off", GOSUMDB="off", GOTOOLCHAIN="local")
